@@ -215,7 +215,19 @@ class Ctx:
 # worker
 # ----------------------------------------------------------------------------------------------
 
+def redirect_repo():
+    """With VERIF_REPO set (scratch copies for self-tests) make `import cherab` resolve there, not in /repo."""
+    if REPO != "/repo":
+        m = sys.modules.get("cherab")
+        if m is not None and hasattr(m, "__path__"):
+            m.__path__[:] = [os.path.join(REPO, "cherab")]
+        for k in list(sys.modules):
+            if k.startswith("cherab."):
+                raise Inconclusive("cherab imported before redirect")
+
+
 def load_prop(pid):
+    redirect_repo()
     return importlib.import_module("vf.props." + pid.lower())
 
 
@@ -498,15 +510,16 @@ def aggregate(pid, mod, tier, seed, results, t0, extra=None, replay=False):
         err = validate_evidence(ev) if len(hashes) >= 2 and evaluations >= 1 and samples else None
         if err:
             inconclusive.append("evidence does not validate: " + err)
-        os.makedirs(os.path.join(ROOT, "evidence"), exist_ok=True)
-        with open(os.path.join(ROOT, "evidence", pid + ".json"), "w") as f:
+        evdir = os.path.join(ROOT, "evidence") if REPO == "/repo" else os.path.join(CACHE, "evidence_scratch")
+        os.makedirs(evdir, exist_ok=True)
+        with open(os.path.join(evdir, pid + ".json"), "w") as f:
             f.write(jdump(ev, indent=1))
     for ln in lines:
         print(ln)
     print("%s tier=%s seed=%s evaluations=%d distinct_nontrivial=%d monitors=%s" % (
         pid, tier, seed, evaluations, len(hashes), jdump(dict(monitors))))
     if margins:
-        print("%s margins (max residual/tolerance): %s" % (pid, jdump({k: round(v, 4) for k, v in margins.items()})))
+        print("%s margins (max residual/tolerance): %s" % (pid, jdump({k: float("%.3g" % v) for k, v in margins.items()})))
     if new:
         print("%s: VIOLATED (%d new violation keys) wall=%.1fs" % (pid, len(new), time.time() - t0))
         return 1
